@@ -198,6 +198,26 @@ def run(ctx, F):
     check_callers(ctx, F, "C14.goals-under-lock", GOALS + "poll_next_goal", {SCHED + "respond_to_requests": "inside the last-parked callback (mutex held by park_and_wait)"})
     check_callers(ctx, F, "C14.goals-under-lock", GOALS + "on_current_goal_completed", {
         SCHED + "on_last_parked": "inside the last-parked callback (mutex held)", MON + "on_all_workers_exited": "under try_lock().unwrap()"}, min_sites=2)
+    # who may change the pending-request table and the current goal (a request erased by anyone but the poller is lost)
+    gadt = "scheduler::worker_goals::WorkerGoals"
+    wreq = field_mutators(F, gadt, "requests")
+    okw = set(wreq) == {GOALS + "set_request", GOALS + "poll_next_goal"}
+    ctx.judge(okw, "C14.goals-under-lock", "mutators of WorkerGoals.requests", expected="{set_request (records), poll_next_goal (takes the one it returns)}",
+              found=str(sorted(wreq)), key="C14.goals-under-lock|writers-requests")
+    wcur = field_mutators(F, gadt, "current")
+    okc = set(wcur) == {GOALS + "poll_next_goal", GOALS + "on_current_goal_completed"}
+    ctx.judge(okc, "C14.goals-under-lock", "mutators of WorkerGoals.current", expected="{poll_next_goal, on_current_goal_completed}", found=str(sorted(wcur)),
+              key="C14.goals-under-lock|writers-current")
+    png = F.fn(GOALS + "poll_next_goal")
+    # poll_next_goal clears exactly the request it returns: the store of `false` is under *requested == true
+    clr = [(bb, pl, t) for (bb, j, pl, t) in stores(png) if const_arg(t) is False]
+    okp = len(clr) == 1 and any(p.val is True for p in guards(png, clr[0][0]))
+    ctx.judge(okp, "C14.goals-under-lock", "poll_next_goal clears only the request it takes", expected="one store of false, under *requested == true",
+              found=str([(bb, guard_strs(png, bb)) for bb, _, _ in clr])[:300], where=where(png), key="C14.goals-under-lock|poll-clears-one")
+    sr_ = F.fn(GOALS + "set_request")
+    sets = [(bb, pl, t) for (bb, j, pl, t) in stores(sr_)]
+    ctx.judge(all(const_arg(t) is True for bb, pl, t in sets if "index_mut" in show(strip(sr_.flow.place_tree(pl, bb, 0)))) and bool(sets), "C14.goals-under-lock",
+              "set_request only ever sets a request", expected="stores true", found=str([show(t) for _, _, t in sets]), where=where(sr_), key="C14.goals-under-lock|set-true")
     mr = F.fn(MON + "make_request")
     nt = live_calls(mr, name="notify_work_available")
     okm = len(nt) == 1 and len(sig(mr, nt[0].bb)) == 1 and bool(sig_find(mr, nt[0].bb, r"set_request", True))
